@@ -135,19 +135,44 @@ def have_ipv6():
     return HAS_IPV6[0]
 
 
+CB_SHAPE = [0]
+
+
 def run_sequence(R, items, attempt=0, v6=False):
     """Returns (problems, stats).  problems: list of (kind, detail)."""
     events = []
     loop = asyncio.new_event_loop()
     loop.set_exception_handler(lambda l, ctx: events.append(("exc", repr(ctx.get("exception")), ctx.get("message"))))
 
-    async def callback(trap):
+    async def handler(trap, *extra):
         events.append(("trap", trap))
+
+    # the shapes a caller may give its callback (Callable[[Trap], Awaitable[None]])
+    class CallableObject:
+        async def __call__(self, trap):
+            await handler(trap)
+
+    class Owner:
+        async def method(self, trap):
+            await handler(trap)
+
+    import functools
+
+    shape = CB_SHAPE[0] % 6
+    callback = (
+        handler,
+        lambda trap: handler(trap, "context"),  # plain function returning the coroutine
+        CallableObject(),
+        Owner().method,
+        functools.partial(lambda ctx, trap: handler(trap, ctx), "ctx"),
+        functools.partial(handler),
+    )[shape]
+    stats_shape = shape
 
     port = free_port() if not v6 else free_port6()
     socks = {}
     problems = []
-    stats = {"valid": 0, "invalid": 0}
+    stats = {"valid": 0, "invalid": 0, "cb_shape": stats_shape}
     with warnings.catch_warnings(record=True):
         warnings.simplefilter("always")
         try:
@@ -285,7 +310,9 @@ def classify(problems, stats):
 
 
 def run_items(R, items, label, v6=False):
-    case = {"v6": v6, "items": [{"cls": it["cls"], "src": it["src"], "port": it.get("port", 0), "data": "hex:" + it["data"].hex(), "i": it["i"], "vbs": rig.jsonable(it["vbs"])} for it in items]}
+    CB_SHAPE[0] = CB_SHAPE[0] + 1 if label != "replay" else CB_SHAPE[0]
+    R.mon["callback_shape_%d" % (CB_SHAPE[0] % 6)] += 1
+    case = {"cb_shape": CB_SHAPE[0] % 6, "v6": v6, "items": [{"cls": it["cls"], "src": it["src"], "port": it.get("port", 0), "data": "hex:" + it["data"].hex(), "i": it["i"], "vbs": rig.jsonable(it["vbs"])} for it in items]}
     problems, stats = run_sequence(R, items, v6=v6)
     timing = {"missing"}
     if problems and {k for k, _ in problems} <= timing:
@@ -389,4 +416,5 @@ def replay(R, v):
                     x = tuple(x)
                 vbs.append((tuple(o), (kind, x)))
         items.append({"cls": it["cls"], "src": it["src"], "port": it.get("port", 0), "data": bytes.fromhex(it["data"][4:]), "i": it["i"], "vbs": vbs})
+    CB_SHAPE[0] = v["case"].get("cb_shape", 0)
     run_items(R, items, "replay", v6=bool(v["case"].get("v6")))
